@@ -174,7 +174,11 @@ def big_cases(ctx):
         # block rotations and reversals of the top levels
         for perm in ([2, 3, 0, 1], [3, 2, 1, 0], [1, 2, 3, 4, 0], [4, 0, 1, 2, 3], [3, 4, 5, 0, 1, 2], [5, 4, 3, 2, 1, 0]):
             ops.append(f"BIGORDER 18 {rng.choice([2, 4, 8])} {rng.randrange(1 << 30)} " + " ".join(map(str, perm)))
-        cases.append((ddgen.header(f"big-{kind}", kind, cap=1024), ops))
+        # several short cases instead of a long one: the harness watchdog (VERIF_HANG_MS, 20 s) is per CASE and
+        # one BIGORDER takes 0.2..0.5 s on an idle machine, several times that next to 15 other shards
+        body = ops[1:]
+        for k in range(0, len(body), 5):
+            cases.append((ddgen.header(f"big-{kind}-{k // 5}", kind, cap=1024), ["VARS 2"] + body[k:k + 5]))
     return cases
 
 
